@@ -971,7 +971,7 @@ def directed_simpy(ctx, n):
     from usim.py.exceptions import Interrupt
     rng = ctx.rng
     for _ in range(n):
-        kind = rng.choice(['embedded', 'interrupts', 'allof', 'falsy-results', 'stop-at-zero'])
+        kind = rng.choice(['embedded', 'interrupts', 'allof', 'falsy-results', 'stop-at-zero', 'native-activities'])
         log = []
         if kind == 'embedded':
             T0, enter, d = rng.choice([0, 0, 4, 9]), rng.choice([0, 3, 4, 7]), rng.choice([1, 2, 5])
@@ -1035,6 +1035,43 @@ def directed_simpy(ctx, n):
                     log.append(('got', repr(got), type(got).__name__))
             env.process(proc(env))
             want = [('got', repr(v), type(v).__name__) for v in vals]
+            runner = lambda: env.run()   # noqa
+        elif kind == 'native-activities':
+            # a process yields native usim activities (coroutines): one that returns a value - also a falsy one - and one
+            # that raises: the value is sent in, the exception is RAISED at the yield, at the time the activity ended
+            d = rng.choice([0, 1, 3])
+            val = rng.choice([0, '', None, 'v', 5])
+            order = rng.choice(['value-first', 'failure-first'])
+            case = {'native_activities': dict(delay=d, value=repr(val), order=order)}
+            env = Environment()
+
+            async def returns():
+                if d:
+                    await (usim.time + d)
+                return val
+
+            async def raises():
+                if d:
+                    await (usim.time + d)
+                raise KeyError('native')
+
+            def proc(env):
+                for what in (('v', 'f') if order == 'value-first' else ('f', 'v')):
+                    t0 = env.now
+                    if what == 'v':
+                        got = yield returns()
+                        log.append(('value', repr(got), env.now - t0))
+                    else:
+                        try:
+                            got = yield raises()
+                            log.append(('failure was sent in as a value', repr(got), env.now - t0))
+                        except KeyError as e:
+                            log.append(('raised', e.args[0], env.now - t0))
+                yield env.timeout(1)
+                log.append(('done', env.now))
+            env.process(proc(env))
+            w = {'v': ('value', repr(val), d), 'f': ('raised', 'native', d)}
+            want = [w[x] for x in (('v', 'f') if order == 'value-first' else ('f', 'v'))] + [('done', 2 * d + 1)]
             runner = lambda: env.run()   # noqa
         elif kind == 'stop-at-zero':
             # a run that stops at time 0 (an event firing at once) with later timeouts pending: env.now stays at the stop
